@@ -160,7 +160,7 @@ func TestC11(t *testing.T) {
 	})
 
 	eu, eudesc := edgeU()
-	reps := m.N(4, 64)
+	reps := m.N(4, 32)
 	m.Cases("edge", len(eu)*reps, func(i int64, r *rand.Rand) {
 		e := int(i) % len(eu)
 		s := scalarPattern(r, int(i/int64(len(eu)))+int(i)%32)
@@ -169,7 +169,8 @@ func TestC11(t *testing.T) {
 		c.judge(s, eu[e], cls, eudesc[e])
 	})
 
-	m.Cases("random", m.N(2000, 150000), func(i int64, r *rand.Rand) {
+	nRandom := m.N(2000, 80000)
+	m.Cases("random", nRandom, func(i int64, r *rand.Rand) {
 		var u [32]byte
 		copy(u[:], mon.Bytes(r, 32))
 		switch i % 4 {
@@ -275,6 +276,6 @@ func TestC11(t *testing.T) {
 	m.Gate("edge_cases:noncanonical|bit255", 19*4, "u in p..2^255-1, bit 255 set")
 	m.Gate("edge_cases:canonical-edge|bit255", 65*4, "u near 0 / p with bit 255 set")
 	m.Gate("bit255_set_cases", 500, "bit 255 of u set")
-	m.Gate("scalarbasemult_cases", m.N(2000, 150000)*9/10, "ScalarBaseMult compared")
-	m.Gate("dh_symmetry_cases", m.N(2000, 150000)*9/10, "two-party agreement compared")
+	m.Gate("scalarbasemult_cases", nRandom*9/10, "ScalarBaseMult compared")
+	m.Gate("dh_symmetry_cases", nRandom*9/10, "two-party agreement compared")
 }
